@@ -7,7 +7,7 @@ from `amount` and feeds leg one's output-side amount into leg two, exact-out com
 from `amount` and feeds leg two's input-side amount (v2: its fee-excluded amount on the
 intermediate mint) into leg one; output(one) != input(two) fails; the two pools must be
 distinct and share the intermediate mint before any computation; each pool / oracle is
-updated with its own leg's result.
+updated with its own leg's result, booked on that leg's own input side.
 Not decided: equality of resulting account bytes with two separate instructions."""
 from analysis import cfg, atoms as A, preach
 from analysis.ir import callee_path, AnchorMissing
@@ -254,4 +254,11 @@ def R5_settlement(run):
               detail="positional match of results, pools, directions and same-named accounts")
 
 
-RULES = [R1_legs, R2_coupling, R3_equality_guard, R4_distinct_and_shared_mint, R5_settlement]
+def R6_settlement_sides(run):
+    run.title("R6", "inside the settlements each pool books its fee growth and protocol fee on its own input side: every update_after_swap caller passes that leg's own a_to_b (C06.R3 instances)")
+    from rules.common import RuleProxy
+    from rules import C06
+    C06.R3_booking_side(RuleProxy(run, "R6"))
+
+
+RULES = [R1_legs, R2_coupling, R3_equality_guard, R4_distinct_and_shared_mint, R5_settlement, R6_settlement_sides]
